@@ -7,12 +7,20 @@
 // these or state them as `callsite … assumes` clauses, which the evidence lists as unchecked assumptions.
 package proto
 
+// Kind2Wire is a map literal that is never written after package initialisation (checked mechanically over
+// the whole program); lookups in it are evaluated against the literal.
+//@ global frozen Kind2Wire
+
+// wtof: the wire type of a node type, as TypeToKind + Kind2Wire compute it (LIST has none: TypeToKind panics).
+//@ pure wtof(t Type) WireType = ite(t == FLOAT || t == FIX32 || t == SFIX32, WireType(5), ite(t == DOUBLE || t == FIX64 || t == SFIX64, WireType(1), \
+//@      ite(t == STRING || t == BYTE || t == MESSAGE || t == MAP, WireType(2), ite(t == GROUP, WireType(3), WireType(0)))))
+
 //@ spec (*TypeDescriptor).IsPacked
 //@   props C07 C06 C10
 //@   requires wf: t != nil && (t.typ == LIST ==> t.elem != nil && t.elem.typ != LIST && t.elem.typ != MAP)
 //@   ensures val: r0 <==> (t.typ == LIST && t.elem.typ != STRING && t.elem.typ != MESSAGE && t.elem.typ != BYTE)
 
-// WireType goes through the Kind2Wire map (a Go map: its result is not interpreted).
 //@ spec (*TypeDescriptor).WireType
 //@   props C07 C06 C10
 //@   requires wf: f != nil && f.typ != LIST
+//@   ensures val: r0 == wtof(f.typ)
